@@ -20,7 +20,11 @@ package agreement
 //   plus: the restored pending actions compare equal (type, ComparableStr, encoding).
 // part "behaviour", (c): machines restored from encode(S) (msgp decode and reflection decode)
 //   are fed the same subsequent events as the uncrashed machine; after every event the emitted
-//   actions (type, ComparableStr, encoding) and the encoded state must be identical.
+//   actions (type, ComparableStr, encoding) and the encoded state must be identical. Every batch
+//   with a persistent (attest) action is first written through the real asyncPersistenceLoop
+//   (Enqueue, as Service.persistState does) into an in-memory crash database; once the loop has
+//   acknowledged it, restore() must return exactly that state, and snapshots taken at persist
+//   points restore the machines from what the database holds, not from the in-memory encoding.
 //
 // What the oracle deliberately does not demand (the code does not persist it by design, see
 // encode/decode and the struct tags): children of rounds before the player's round, the
@@ -54,6 +58,7 @@ import (
 	"github.com/algorand/go-algorand/data/committee"
 	"github.com/algorand/go-algorand/logging"
 	"github.com/algorand/go-algorand/protocol"
+	"github.com/algorand/go-algorand/util/db"
 	"github.com/algorand/go-algorand/util/timers"
 	"verif.local/kit"
 )
@@ -1231,6 +1236,75 @@ func TestVerifC07Codec(t *testing.T) {
 }
 
 // ---------------------------------------------------------------------------------------
+// the crash database, written the way the Service writes it
+
+// c07Ledger: the persistence loop only waits for the previous round to be on disk.
+type c07Ledger struct{ LedgerReader }
+
+func (c07Ledger) Wait(basics.Round) chan struct{} {
+	ch := make(chan struct{})
+	close(ch)
+	return ch
+}
+
+// c07Crash is an in-memory crash database behind the real asyncPersistenceLoop. Every batch with a persistent
+// (attest) action goes through Enqueue exactly as Service.persistState does; the harness waits for the loop's
+// checkpointEvent (the acknowledgement that releases the vote) and then reads the database back with restore().
+type c07Crash struct {
+	acc     db.Accessor
+	loop    *asyncPersistenceLoop
+	lastKey [3]uint64
+	have    bool
+	lastRaw []byte
+}
+
+func c07NewCrash(c *kit.Ctx, name string) *c07Crash {
+	acc, err := db.MakeAccessor(name, false, true)
+	if err != nil {
+		c.Harness("crash db: %v", err)
+	}
+	restore(c07Log, acc) // creates the Service table, as the first start of a node does
+	cr := &c07Crash{acc: acc, loop: makeAsyncPersistenceLoop(serviceLogger{c07Log}, acc, c07Ledger{})}
+	cr.loop.Start()
+	return cr
+}
+
+func (cr *c07Crash) close() {
+	cr.loop.Quit()
+	cr.acc.Close()
+}
+
+// persist hands the state to the persistence loop and waits for its acknowledgement.
+func (cr *c07Crash) persist(c *kit.Ctx, m *c07Machine, acts []action) (raw []byte, sameKey bool, ackErr *serializableError) {
+	raw = m.encode(acts, false)
+	key := [3]uint64{uint64(m.p.Round), uint64(m.p.Period), uint64(m.p.Step)}
+	sameKey = cr.have && key == cr.lastKey
+	cr.have, cr.lastKey, cr.lastRaw = true, key, raw
+	evs := cr.loop.Enqueue(c07Clock, m.p.Round, m.p.Period, m.p.Step, raw, make(chan error, 1))
+	select {
+	case e := <-evs:
+		if ce, ok := e.(checkpointEvent); ok {
+			ackErr = ce.Err
+		}
+	case <-time.After(2 * time.Minute): // watchdog only
+		c.Harness("persistence loop did not acknowledge a request")
+	}
+	return
+}
+
+func c07DescribeRaw(raw []byte) string {
+	if raw == nil {
+		return "nothing"
+	}
+	rm, ra, err := c07Restore(raw, false)
+	if err != nil {
+		return "undecodable: " + err.Error()
+	}
+	sh := rm.shape()
+	return fmt.Sprintf("%d bytes: player (%d,%d,%d) deadline %v, %d step trackers, %d votes, pending actions %v", len(raw), rm.p.Round, rm.p.Period, rm.p.Step, rm.p.Deadline.Duration, sh.steps, sh.votes, c07ActStr(ra))
+}
+
+// ---------------------------------------------------------------------------------------
 // part behaviour
 
 type c07Replica struct {
@@ -1248,7 +1322,7 @@ type c07Compare struct {
 func TestVerifC07Behaviour(t *testing.T) {
 	c := kit.Start(t, "C07", "behaviour")
 	defer c.Finish()
-	c.Rule("same streams as part codec (other PRNG stream); at persist points and PRNG-chosen points the state is encoded and restored twice (msgp decode, reflection decode); the restored machines then receive the next 5-80 events of the uncrashed machine's stream; after every event actions (type, ComparableStr, encoding) and the encoded state must equal the uncrashed machine's; distinct = distinct state-shape classes at the snapshot")
+	c.Rule("same streams as part codec (other PRNG stream); every batch with a persistent (attest) action is written through the real asyncPersistenceLoop into an in-memory crash database and read back with restore() once acknowledged (including consecutive votes at an unchanged round/period/step: soft then cert vote, fast-recovery votes); at persist points (state taken from that database) and PRNG-chosen points the state is encoded and restored twice (msgp decode, reflection decode); the restored machines then receive the next 5-80 events of the uncrashed machine's stream; after every event actions (type, ComparableStr, encoding) and the encoded state must equal the uncrashed machine's; distinct = distinct state-shape classes at the snapshot")
 	c.Assume("while a comparison runs the stream has no proposal-vote whose handling depends on the deliberately unpersisted late-credential state, and no verification reply to a request older than the snapshot; streams stay below 40 rounds (credential history never full)")
 	nstreams := c.N(50, 2000)
 	var sampled, sampledRich int32
@@ -1259,6 +1333,8 @@ func TestVerifC07Behaviour(t *testing.T) {
 		var cur *c07Compare
 		restrictNone := &c07Restrict{}
 		var lastEvent event
+		crash := c07NewCrash(c, fmt.Sprintf("verif-c07-crash-%d-%d-%d", os.Getpid(), c.Seed, s))
+		defer crash.close()
 		c07Stream(c, 71, s, c.N(500, 600), func(m *c07Machine, acts []action, w *c07World, i int, trace []string) bool {
 			where := func(extra string) map[string]any {
 				wt := map[string]any{"stream": s, "event_index": i, "message": extra, "replay": fmt.Sprintf("VERIF_SEED=%d: stream %d is generated from c.Rand(71,%d)", c.Seed, s, s),
@@ -1268,6 +1344,36 @@ func TestVerifC07Behaviour(t *testing.T) {
 					wt["events_around_snapshot"] = cur.snapTrace
 				}
 				return wt
+			}
+			// every batch with a persistent action is written through the real persistence loop, as Service.persistState does;
+			// once the loop has acknowledged it (that is what releases the vote), a crash must find exactly that state
+			var fromDB []byte
+			if persistent(acts) {
+				raw, sameKey, ackErr := crash.persist(c, m, acts)
+				c.Count("persist_requests", 1)
+				if sameKey {
+					c.Count("persist_requests_with_unchanged_round_period_step", 1)
+				}
+				if ackErr != nil {
+					c.Harness("in-memory crash database refused a write: %v", ackErr)
+				}
+				got, rerr := restore(c07Log, crash.acc)
+				c.Eval(1)
+				if rerr != nil || !bytes.Equal(got, raw) {
+					c.Violation("crash-db-does-not-hold-acknowledged-state", where(fmt.Sprintf("after the persistence loop acknowledged the checkpoint (unchanged round/period/step since the previous one: %v), restore() returns %s (error %v); the state handed to the loop was %s",
+						sameKey, c07DescribeRaw(got), rerr, c07DescribeRaw(raw))))
+					return false
+				}
+				fromDB = got
+			} else if crash.have && w.r.Chance(1, 10) {
+				// a crash between persist points finds the last acknowledged state
+				got, rerr := restore(c07Log, crash.acc)
+				c.Eval(1)
+				c.Count("crash_db_reads_between_persist_points", 1)
+				if rerr != nil || !bytes.Equal(got, crash.lastRaw) {
+					c.Violation("crash-db-does-not-hold-acknowledged-state", where(fmt.Sprintf("between persist points restore() returns %s (error %v); the last acknowledged state was %s", c07DescribeRaw(got), rerr, c07DescribeRaw(crash.lastRaw))))
+					return false
+				}
 			}
 			if cur != nil {
 				// feed the same event to the restored machines and compare
@@ -1309,7 +1415,12 @@ func TestVerifC07Behaviour(t *testing.T) {
 			}
 			if cur == nil && (persistent(acts) || w.r.Chance(1, 10)) {
 				acts := c07Persisted(c, acts)
-				raw := m.encode(acts, false)
+				raw := fromDB // at a persist point the machines are restored from what the crash database holds
+				if raw == nil {
+					raw = m.encode(acts, false)
+				} else {
+					c.Count("snapshots_restored_from_crash_db", 1)
+				}
 				cmp := &c07Compare{remaining: w.r.Range(5, 80), snapTrace: append([]string(nil), trace...)}
 				cmp.rs = c07Restrict{active: true, snapRound: m.p.Round, snapAt: i, taint: map[c07Key]bool{}}
 				for rd, rr := range m.rr.Children {
@@ -1361,4 +1472,7 @@ func TestVerifC07Behaviour(t *testing.T) {
 	c.Require("states_with_equivocation_records", 30)
 	c.Require("states_with_pipelined_next_round", 30)
 	c.Require("snapshots_at_persist_points", 30)
+	c.Require("snapshots_restored_from_crash_db", 30)
+	c.Require("persist_requests", int64(c.N(500, 20000)))
+	c.Require("persist_requests_with_unchanged_round_period_step", int64(c.N(50, 2000)))
 }
